@@ -24,7 +24,7 @@ func init() {
 	simkit.Register(&simkit.Prop{
 		ID:             "C38",
 		Desc:           "wallet file persistence and password binding of account.ClientImpl against a list-of-records model",
-		Rule:           "a run = one real wallet file under the scratch directory, opened by the real ClientImpl, and 1..12 generated operations (create via NewAccount, add an externally encrypted account via ImportAccount, re-import a deleted / foreign account, delete with right or wrong password, set default, relabel from a small colliding label set, change password with right or wrong old password, change signature scheme, drop the client and reopen the file); key types ECDSA P-224/256/384/521, SM2, Ed25519; most runs use a wallet whose scrypt section is cheap (so that hundreds of decryptions fit in a run), some the default parameters; after every operation and every reopen the account list, metadata and decryptability are compared with the model; non-trivial = at least 2 accounts existed at some point, at least one reopen happened after a mutation and at least one password or default/label/scheme change was applied; distinct = distinct event-trace hash",
+		Rule:           "a run = one real wallet file under the scratch directory, opened by the real ClientImpl, and 1..12 generated operations (create via NewAccount, add an externally encrypted account via ImportAccount, re-import a deleted / foreign account, delete with right or wrong password, set default, relabel from a small colliding label set, change password with right or wrong old password, change signature scheme, drop the client and reopen the file, open another wallet file with other key-derivation parameters in the same process); key types ECDSA P-224/256/384/521, SM2, Ed25519; most runs use a wallet whose scrypt section is cheap (so that hundreds of decryptions fit in a run), some the default parameters; after every operation and every reopen the account list, metadata and decryptability are compared with the model; non-trivial = at least 2 accounts existed at some point, at least one reopen happened after a mutation and at least one password or default/label/scheme change was applied; distinct = distinct event-trace hash",
 		Real:           []string{"account (ClientImpl, WalletData Save/Load, AccountData, AccountMetadata)", "ontology-crypto keypair (key generation, scrypt + AES-GCM protected keys) and signature schemes", "core/types.AddressFromPubKey", "the file system (tmpfs scratch directory)"},
 		Stub:           []string{"none: the harness is only the operation generator and the model"},
 		Assumptions:    []string{"the outcome (error / success) of an operation is taken from the real client except where the property fixes it: a wrong password must be refused by GetAccount*, DeleteAccount and ChangePassword", "an account whose address is already in the wallet is never imported again (the API does not define that case)", "no crash faults: every Save completes"},
@@ -187,7 +187,7 @@ func runC38(c *simkit.Ctx) {
 	nOps := t.Range(1, maxOps)
 	maxAccts, mutated, changed, reopenedAfterMutation := 0, false, false, false
 	for i := 0; i < nOps; i++ {
-		op := t.Pick(6, 3, 3, 2, 3, 3, 2, 3, 1, 1, 1)
+		op := t.Pick(6, 3, 3, 2, 3, 3, 2, 3, 1, 1, 1, 1)
 		if len(w.model) == 0 && op != 7 {
 			op = 0
 		}
@@ -341,6 +341,14 @@ func runC38(c *simkit.Ctx) {
 				a.sigSch = scheme.Name()
 				mutated = true
 			}
+		case 11: // the same process opens another wallet file with other key-derivation parameters (an import source)
+			w.lastOp = "other-wallet-opened"
+			op := []keypair.ScryptParam{{N: 4, R: 1, P: 1, DKLen: 64}, {N: 32, R: 2, P: 1, DKLen: 64}, {N: 8, R: 1, P: 2, DKLen: 48}}[t.Choose(3)]
+			other := fmt.Sprintf("%s.other%d", w.path, i)
+			c.Must(os.WriteFile(other, []byte(fmt.Sprintf(`{"name":"Other","version":"1.1","scrypt":{"p":%d,"n":%d,"r":%d,"dkLen":%d},"accounts":[]}`, op.P, op.N, op.R, op.DKLen)), 0644), "other wallet file")
+			_, err := account.NewClientImpl(other)
+			c.Logf("op %d another wallet (scrypt n=%d r=%d p=%d dkLen=%d) opened in this process -> err=%v", i, op.N, op.R, op.P, op.DKLen, err)
+			c.Probe("other_wallet_opened")
 		case 7: // drop the client object, reopen the file
 			w.reopen(i)
 			if mutated {
